@@ -147,29 +147,7 @@ fn subjects(cfg: &FamCfg, quick: bool) -> Vec<Subject> {
     v
 }
 
-pub fn run(mut run: Run) -> i32 {
-    let quick = run.ctx.quick();
-    run.rule = "closest_point: every shape of the lattice families (all types, polygons with holes, mixed collections) x every query point of the half-step lattice extended beyond the box: Intersection(p) iff p is not exterior (exact), \
-        otherwise a point on the geometry at the exact minimum distance; interior_point: every shape, the TJ(n) family (lattice triangle shell x triangular hole with a vertex in the interior of a shell edge, n=7 quick / 9 thorough), concave and sliver polygons: \
-        Some unless empty, not exterior, interior when the geometry has interior of its own dimension, no panic; distinct = (type, location class / family)"
-        .into();
-    run.assumptions = vec!["returned points are judged with a 1e-9 tolerance (they are not lattice points); query points and inputs are exact".into()];
-    let mut cfg = super::c01::cfg(&run.ctx);
-    if quick {
-        cfg.mls_stride = 60;
-        cfg.mls3_stride = 9;
-        cfg.mpg_stride = 20;
-    }
-    let subs = subjects(&cfg, quick);
-    let n = subs.len();
-    let span: i64 = 11; // k/2 for k in -2..=8
-    let nq = (span * span) as usize;
-    run.stage("closest-point", n * nq, |idx, acc| {
-        let s = &subs[idx / nq];
-        let q = idx % nq;
-        let (kx, ky) = (q as i64 / span - 2, q as i64 % span - 2);
-        let hp = HP::new(kx as i128, ky as i128, 2);
-        let p = Point::new(kx as f64 / 2.0, ky as f64 / 2.0);
+fn check_closest(acc: &mut Acc, idx: usize, s: &Subject, hp: HP, p: Point<f64>) {
         let loc = s.locate_exact(&hp);
         let locn = ["interior", "boundary", "exterior"][loc];
         acc.evals += 1;
@@ -200,7 +178,52 @@ pub fn run(mut run: Run) -> i32 {
                 }
             }
         }
+}
+
+pub fn run(mut run: Run) -> i32 {
+    let quick = run.ctx.quick();
+    run.rule = "closest_point: every shape of the lattice families (all types, polygons with holes, mixed collections) x every query point of the half-step lattice extended beyond the box: Intersection(p) iff p is not exterior (exact), \
+        otherwise a point on the geometry at the exact minimum distance; interior_point: every shape, the TJ(n) family (lattice triangle shell x triangular hole with a vertex in the interior of a shell edge, n=7 quick / 9 thorough), concave and sliver polygons: \
+        Some unless empty, not exterior, interior when the geometry has interior of its own dimension, no panic; distinct = (type, location class / family)"
+        .into();
+    run.assumptions = vec!["returned points are judged with a 1e-9 tolerance (they are not lattice points); query points and inputs are exact".into()];
+    let mut cfg = super::c01::cfg(&run.ctx);
+    if quick {
+        cfg.mls_stride = 60;
+        cfg.mls3_stride = 9;
+        cfg.mpg_stride = 20;
+    }
+    let subs = subjects(&cfg, quick);
+    let n = subs.len();
+    let span: i64 = 11; // k/2 for k in -2..=8
+    let nq = (span * span) as usize;
+    run.stage("closest-point", n * nq, |idx, acc| {
+        let s = &subs[idx / nq];
+        let q = idx % nq;
+        let (kx, ky) = (q as i64 / span - 2, q as i64 % span - 2);
+        let hp = HP::new(kx as i128, ky as i128, 2);
+        let p = Point::new(kx as f64 / 2.0, ky as f64 / 2.0);
+        check_closest(acc, idx, s, hp, p);
     });
+    // images under (moderate) integer affine maps, queried at the images of the half-step lattice points: oblique edges, projection parameters that
+    // are not representable, closest features that are no longer axis-parallel
+    {
+        let istep = 1;
+        for f in imaps().into_iter().take(3) {
+            let img: Vec<Subject> = subs.iter().step_by(istep).map(|s| Subject { parts: s.parts.iter().map(|a| map_ag(a, &f)).collect(), g: map_geom(&s.g, &f), fam: s.fam }).collect();
+            let ni = img.len();
+            run.stage(&format!("closest-point affine-image {}", f.name), ni * nq, |idx, acc| {
+                let s = &img[idx / nq];
+                let q = idx % nq;
+                let (kx, ky) = (q as i64 / span - 2, q as i64 % span - 2);
+                let (x2, y2) = (f.m[0] * kx + f.m[1] * ky + 2 * f.t.0, f.m[2] * kx + f.m[3] * ky + 2 * f.t.1);
+                check_closest(acc, idx, s, HP::new(x2 as i128, y2 as i128, 2), Point::new(x2 as f64 / 2.0, y2 as f64 / 2.0));
+            });
+            run.stage(&format!("interior-point affine-image {}", f.name), ni, |idx, acc| {
+                check_interior(acc, idx, &img[idx]);
+            });
+        }
+    }
     // closest_point on longer segments: projection parameters that are not representable (thirds, sevenths ...)
     let gq: Vec<IP> = { let m = if quick { 11 } else { 15 }; grid(m).into_iter().map(|p| (2 * p.0 - 5, p.1 - 3)).collect() };
     let ngq = gq.len();
